@@ -322,6 +322,8 @@ func runC04(c *core.Ctx) {
 	checkRestoreKeepsFlags(c, "R4.11")
 	c.Rule("R4.12", "flags travel through the metadata record unchanged: every record written carries the command's own flags or those of the record just read; the fetch helpers return the decoded field, or - if they take the backend item's flags instead - every write of the metadata entry stores the same flags as item flags", 4)
 	checkFlagsThroughMetadata(c, "R4.12")
+	c.Rule("R4.17", "a hit is read as the backend frames it: exactly one consumption of the 4 bytes of item flags between the reply header and the stored entry (metadata record, or token and chunk data)", 2)
+	runR417(c, "R4.17")
 	c.Share(map[string]string{"R16.4": "R4.13"}, runC16) // a chunk count that differs between metadata and chunk writer makes some lengths unreadable or leaves orphans
 }
 
